@@ -153,16 +153,28 @@ func (c *Ctx) collect() {
 				if !ok {
 					continue
 				}
-				ast.Inspect(gd, func(n ast.Node) bool {
-					if lit, ok := n.(*ast.FuncLit); ok {
-						fi := &FuncInfo{Pkg: p, Lit: lit, Name: "init$lit"}
-						c.Funcs = append(c.Funcs, fi)
-						c.byLit[lit] = fi
-						c.collectLits(fi, lit.Body)
-						return false
+				for _, sp := range gd.Specs {
+					vs, ok := sp.(*ast.ValueSpec)
+					if !ok {
+						continue
 					}
-					return true
-				})
+					vname := "_"
+					if len(vs.Names) > 0 {
+						vname = vs.Names[0].Name
+					}
+					k := 0
+					ast.Inspect(vs, func(n ast.Node) bool {
+						if lit, ok := n.(*ast.FuncLit); ok {
+							k++
+							fi := &FuncInfo{Pkg: p, Lit: lit, Name: fmt.Sprintf("var %s$lit%d", vname, k)}
+							c.Funcs = append(c.Funcs, fi)
+							c.byLit[lit] = fi
+							c.collectLits(fi, lit.Body)
+							return false
+						}
+						return true
+					})
+				}
 			}
 		}
 	}
